@@ -104,6 +104,11 @@ def has_surrogate(evs):
 
 def script_line(cid, enc, ver, evs):
     parts = [cid, enc, ver]
+    if enc == "UTF8":
+        # the legacy FormatterToXML treats an encoding name it does not know as 7-bit (getMaximumCharacterValue):
+        # everything above U+007F becomes a reference, also in comments and at the start of CDATA (its K4 / K-new-6
+        # behaviour on every non-ASCII character); not run for this alias
+        parts.append("-L")
     for e in evs:
         if e[0] == "S":
             parts += ["S", tok(e[1]), str(len(e[2]))]
